@@ -52,6 +52,7 @@ import M4riProofs.GenTie
 import M4riProofs.GenTieAlg
 import M4riProofs.GenTieDuff
 import M4riProofs.GenTieEch
+import M4riProofs.GenTieTop
 namespace M4ri.Props.C02
 open M4ri M4ri.BMat
 
@@ -270,3 +271,10 @@ theorem c_text_naive_gauss (M : Mzd) (full : Bool) (hwf : M.WF) (hp : M.padZero)
 #check @M4ri.GenTieEch.mzdSetUi_one_eq
 
 end M4ri.Props.C02
+
+/-! ### END TO END ON THE C TEXT (GenTieTop.lean): the generated `mzd_echelonize_pluq` over the whole generated `_mzd_pluq` / `_mzd_ple` closed at any
+    depth returns `rank A`; with `full = 1` the memory afterwards is the RREF of `A`, with `full = 0` a row-echelon form with the same row space -/
+#check @M4ri.GenTieTop.c_echelonize_pluq
+#check @M4ri.GenTieTop.c_echelonize_ple
+#check @M4ri.GenTieTop.c_echelonize_pluq_russian
+#check @M4ri.GenTieTop.echelonizePluq_congr
